@@ -400,6 +400,7 @@ func runC05(c *Ctx) {
 			c.check(strings.Join(got, ",") == "ConsumableStorePathTypeDescriptor,ConsumableStorePathTypeFileList", "update-metadata.scan", k.ID, p.Pos(ks.Pos()), "descriptor and file-list keys are both collected", "the destination scan handles ["+strings.Join(got, ",")+"]")
 		}
 	}
+	checkDownloadWrites(c, "roles.download-writes")
 }
 
 // condShape abstracts the guards of diffBundles: "present" for the ok flag of a map lookup, "hash-differs" for a
